@@ -2,7 +2,7 @@
    driver) -> one output line.  All canonical printing is done here, in Coq, so that the OCaml
    side is a trivial read/print loop. *)
 From VF Require Import Base.Prelude Model.Reader Model.InfoModelDefs.
-From VF Require Import Base.IPText Model.Layout Model.JsonPieces Model.Nf5.
+From VF Require Import Base.IPText Model.Layout Model.JsonPieces Model.Nf5 Model.Flow Model.Cache Model.Ipfix Model.Nf9 Model.MarshalFlow.
 From VF Require Gen.InfoModel Gen.Layouts Gen.JsonPieces.
 
 Inductive tok := TBytes (b : bytes) | TInt (z : Z) | TSym (s : bytes).
@@ -88,8 +88,103 @@ Definition cmd_nf5 (args : list tok) : bytes :=
   | _ => s2l "BADARGS"
   end.
 
+(* ---------- IPFIX / NetFlow v9 (C01..C06, C09) ---------- *)
+(* enterprise elements installed by BOTH sides for the correspondence runs (the harness adds exactly
+   these to ipfix.InfoModel; a deployment gets enterprise elements through ipfix.elements) *)
+Definition test_ext_elements : model :=
+  [((9, 1), (1, "extString", 14)); ((9, 2), (2, "extU32", 3)); ((9, 3), (3, "extBool", 11));
+   ((9, 4), (4, "extOctets", 13)); ((29305, 0), (0, "extZero", 2)); ((29305, 7), (7, "extF64", 10));
+   ((4294967295, 32767), (32767, "extMax", 20))]%string.
+
+Definition driver_model : model :=
+  builtin_model Gen.InfoModel.type_consts Gen.InfoModel.field_types Gen.InfoModel.builtin ++ test_ext_elements.
+
+Definition driver_im : infomodel :=
+  fun pen id => match lookup driver_model (pen, id) with Some (fid, _, ty) => Some (fid, ty) | None => None end.
+
+Definition show_value (v : value) : bytes :=
+  match v with
+  | VBool b => s2l "b:" ++ (if b then s2l "1" else s2l "0")
+  | VU8 z => s2l "u8:" ++ show_Z z | VU16 z => s2l "u16:" ++ show_Z z
+  | VU32 z => s2l "u32:" ++ show_Z z | VU64 z => s2l "u64:" ++ show_Z z
+  | VI8 z => s2l "i8:" ++ show_Z z | VI16 z => s2l "i16:" ++ show_Z z
+  | VI32 z => s2l "i32:" ++ show_Z z | VI64 z => s2l "i64:" ++ show_Z z
+  | VF32 z => s2l "f32:" ++ show_Z z | VF64 z => s2l "f64:" ++ show_Z z
+  | VMac l => s2l "mac:" ++ show_bytes l | VStr l => s2l "s:" ++ show_bytes l
+  | VIP l => s2l "ip:" ++ show_bytes l | VBytes l => s2l "raw:" ++ show_bytes l
+  end.
+Definition show_dfield (f : dfield) : bytes :=
+  show_Z (d_id f) ++ s2l "/" ++ show_Z (d_pen f) ++ s2l "/" ++ show_value (d_val f).
+Definition show_sets (ds : list record) : bytes :=
+  intercalate (s2l ";") (map (fun r => intercalate (s2l ",") (map show_dfield r)) ds).
+
+Definition g_ipfix_decode {C} (ops : cache_ops C) := ipfix_decode ops driver_im Gen.Layouts.ipfix_header_layout.
+Definition g_ipfix_marshal (m : ipfix_msg) : bytes :=
+  flow_marshal true Gen.JsonPieces.ipfix_agent_pieces Gen.JsonPieces.ipfix_header_pieces
+               (i_agent m) (i_header m) (i_sets m).
+
+(* one datagram: FAIL | MSG nf=<k> H:<hdr> N:<#sets> S:<sets> J:x<hex json> | J:- (nothing published) *)
+Definition show_ipfix_result (d : dresult ipfix_msg) : bytes :=
+  match d with
+  | DFail => s2l "FAIL"
+  | DMsg m nf =>
+      s2l "MSG nf=" ++ show_Z nf ++ s2l " H:" ++ show_named (i_header m)
+      ++ s2l " N:" ++ show_Z (len (i_sets m)) ++ s2l " S:" ++ show_sets (i_sets m)
+      ++ s2l " J:" ++ (match i_sets m with [] => s2l "-" | _ => show_bytes (g_ipfix_marshal m) end)
+  end.
+
+(* a history: <addr> <payload> <addr> <payload> ... decoded in order from the empty cache *)
+Fixpoint run_ipfix_history {C} (ops : cache_ops C) (c : C) (args : list tok) : list bytes :=
+  match args with
+  | TBytes addr :: TBytes p :: rest =>
+      match g_ipfix_decode ops c addr p with
+      | Ok (c', d) => show_ipfix_result d :: run_ipfix_history ops c' rest
+      | Err _ => [s2l "ERR?"]
+      | Panic => [s2l "PANIC"]
+      | Hang => [s2l "HANG"]
+      end
+  | _ => []
+  end.
+
+Definition hist_sep : bytes := s2l " ## ".
+Definition cmd_ipfixh (args : list tok) : bytes :=
+  intercalate hist_sep (run_ipfix_history cc_ops empty_ccache args).
+(* the same history against the ABSTRACT cache keyed by the full (address, id) *)
+Definition cmd_ipfixh_abs (args : list tok) : bytes :=
+  intercalate hist_sep (run_ipfix_history am_ops [] args).
+
+Definition g_nf9_decode {C} (ops : cache_ops C) := nf9_decode ops driver_im Gen.Layouts.nf9_header_layout.
+Definition g_nf9_marshal (m : nf9_msg) : bytes :=
+  flow_marshal false Gen.JsonPieces.nf9_agent_pieces Gen.JsonPieces.nf9_header_pieces
+               (n9_agent m) (n9_header m) (n9_sets m).
+Definition show_nf9_result (d : dresult nf9_msg) : bytes :=
+  match d with
+  | DFail => s2l "FAIL"
+  | DMsg m nf =>
+      s2l "MSG nf=" ++ show_Z nf ++ s2l " H:" ++ show_named (n9_header m)
+      ++ s2l " N:" ++ show_Z (len (n9_sets m)) ++ s2l " S:" ++ show_sets (n9_sets m)
+      ++ s2l " J:" ++ (match n9_sets m with [] => s2l "-" | _ => show_bytes (g_nf9_marshal m) end)
+  end.
+Fixpoint run_nf9_history {C} (ops : cache_ops C) (c : C) (args : list tok) : list bytes :=
+  match args with
+  | TBytes addr :: TBytes p :: rest =>
+      match g_nf9_decode ops c addr p with
+      | Ok (c', d) => show_nf9_result d :: run_nf9_history ops c' rest
+      | Err _ => [s2l "ERR?"]
+      | Panic => [s2l "PANIC"]
+      | Hang => [s2l "HANG"]
+      end
+  | _ => []
+  end.
+Definition cmd_nf9h (args : list tok) : bytes := intercalate hist_sep (run_nf9_history cc_ops empty_ccache args).
+Definition cmd_nf9h_abs (args : list tok) : bytes := intercalate hist_sep (run_nf9_history am_ops [] args).
+
 Definition dispatch (cmd : bytes) (args : list tok) : bytes :=
   if list_eqb cmd (s2l "reader") then cmd_reader args
   else if list_eqb cmd (s2l "infomodel") then cmd_infomodel args
   else if list_eqb cmd (s2l "nf5") then cmd_nf5 args
+  else if list_eqb cmd (s2l "ipfixh") then cmd_ipfixh args
+  else if list_eqb cmd (s2l "ipfixh-abs") then cmd_ipfixh_abs args
+  else if list_eqb cmd (s2l "nf9h") then cmd_nf9h args
+  else if list_eqb cmd (s2l "nf9h-abs") then cmd_nf9h_abs args
   else s2l "UNKNOWN-COMMAND".
